@@ -609,8 +609,28 @@ Worker(int w, uint64_t seed, uint64_t budget, int64_t probe_start)
     tl_long_lookup = false;
     tl_gap_epoch = 0;
     if (r.Below(10) < 4) {
-      // plain guard, held across forwards (C04)
-      auto g = em.CreateEpochGuard();
+      // plain guard, held across forwards (C04); the guard object is produced in one of several ways
+      EpochGuard g{};
+      switch (r.Below(4)) {
+        case 0: g = em.CreateEpochGuard(); break;  // move assignment onto an empty guard
+        case 1: {
+          EpochGuard tmp{em.CreateEpochGuard()};
+          EpochGuard tmp2{std::move(tmp)};  // move construction
+          g = std::move(tmp2);              // move assignment from a named guard
+          break;
+        }
+        case 2: {
+          auto tmp = em.CreateEpochGuard();
+          EpochGuard moved{std::move(tmp)};
+          g = std::move(moved);
+          break;
+        }
+        default: {
+          EpochGuard direct = em.CreateEpochGuard();
+          g = std::move(direct);
+          break;
+        }
+      }
       if (first) {
         first = false;
         const auto tid = IDManager::GetThreadID();
